@@ -24,6 +24,7 @@ func init() {
 }
 
 func runC23(c *eng.Ctx) {
+	defer runC23Sentinel(c)
 	defer runC23Tombstones(c)
 	p := c.P
 	E := "tsdb/chunkenc:Encoding"
